@@ -121,6 +121,9 @@ func checkC04(c *Ctx, r *Report) {
 	c10DeclareDispatch(c, r, "C04.b")
 	// a %prec belongs to one alternative: at `|` the next alternative starts from a fresh record (C10.d)
 	includeSome(r, "C04.c", func(sub *Report) { c10d(c, sub) }, "alternative-starts-fresh")
+	// "reduces by the rule that appears first in the grammar file": rule numbers are file order only if every list
+	// between the parser and the grammar is append-only and nothing sorts rules (C10.c)
+	includeClauses(c, r, "C04.b", checkC10, "C10.c")
 	// every cell with two or more candidates is resolved at all (C02.a)
 	includeSome(r, "C04.e", func(sub *Report) { c02a(c, sub) }, "fold-covers-every-conflict")
 }
